@@ -150,8 +150,15 @@ func sameBytes() (renders int) {
 	devRoot := filepath.Join(tgen.Scratch(), "devroot")
 	os.MkdirAll(devRoot, 0o755)
 	os.Setenv("TEMPL_DEV_MODE_ROOT", devRoot)
-	bt := &tgen.Batch{Dir: dir, Files: files, Names: names}
+	bt := &tgen.Batch{Dir: dir, Files: files, Names: names, Linked: map[string]bool{}}
 	defer bt.Remove()
+	// two of the files are shared templates: they live in another directory and the project holds symbolic links to
+	// them (the generated code sits next to the link)
+	for _, fn := range []string{"lit0.templ", "lit3.templ"} {
+		if _, ok := files[fn]; ok {
+			bt.Linked[fn] = true
+		}
+	}
 	// accepted templates only
 	for fn, src := range files {
 		if _, _, _, err := tgen.Generate(src, fn); err != nil {
